@@ -1,5 +1,7 @@
 package main
 
+import "strings"
+
 const c15SpecHarness = `//go:build verif
 
 package specification
@@ -277,13 +279,17 @@ func init() {
 		Rule: "one harness per constructor family; a case is one path over the nil-ness / dynamic-type / byte choices; non-trivial = the constructor returned on that path",
 		Assumptions: []string{
 			"validity predicate: what kin-openapi v0.38.0 guarantees after loading - schema of a media type / parameter / header optional, server-variable default and enum items of any JSON type, response description optional",
-			"strings <= 6 bytes of printable ASCII",
+			"strings <= 6 (thorough 9) bytes of printable ASCII",
 		},
 		Build: func(c *Ctx) ([]RunSpec, error) {
 			if err := c.repoHarness("specification", "zz_verif_c15.go", c15SpecHarness); err != nil {
 				return nil, err
 			}
-			if err := c.repoHarness("generator", "zz_verif_c15.go", c15GenHarness); err != nil {
+			gen := c15GenHarness
+			if c.Tier == "thorough" {
+				gen = strings.ReplaceAll(strings.ReplaceAll(gen, `vrt.String("x_goag_go_type", 6)`, `vrt.String("x_goag_go_type", 9)`), `vrt.String("path_template", 6)`, `vrt.String("path_template", 9)`)
+			}
+			if err := c.repoHarness("generator", "zz_verif_c15.go", gen); err != nil {
 				return nil, err
 			}
 			if err := c.repoHarness(".", "zz_verif_c15.go", c15RootHarness); err != nil {
